@@ -4,7 +4,7 @@ Local Open Scope N_scope.
 
 Definition hexd (n : N) : byte := byte_of_N (if N.ltb n 10 then 48 + n else 87 + n).
 Definition hex_encode (bs : bytes) : bytes :=
-  flat_map (fun b => [hexd (bN b / 16); hexd (bN b mod 16)]) bs.
+  flat_map (fun b => [hexd (N.shiftr (bN b) 4); hexd (N.land (bN b) 15)]) bs.
 
 Definition unhex (c : byte) : option N :=
   let n := bN c in
